@@ -157,9 +157,9 @@ def allowed_destructive(S, f, n, k):
         if o.get("k") == "ref" and o.get("dk") == "local":
             dn, var = local_var(f, o["decl"])
             init = skip_copies(var.get("init")) if var else None
-            while isinstance(init, dict) and init.get("k") == "construct" and init.get("class") == "QFile" and init.get("args") and skip_copies(init["args"][0]).get("k") == "construct":
+            while isinstance(init, dict) and init.get("k") == "construct" and init.get("class") in ("QFile", "QSaveFile") and init.get("args") and skip_copies(init["args"][0]).get("k") == "construct":
                 init = skip_copies(init["args"][0])
-            if isinstance(init, dict) and init.get("k") == "construct" and init.get("class") == "QFile" and init.get("args"):
+            if isinstance(init, dict) and init.get("k") == "construct" and init.get("class") in ("QFile", "QSaveFile") and init.get("args"):
                 p = deref_local(f, init["args"][0])
                 leaves = concat_leaves(p)
                 if len(leaves) == 2 and is_ref_to(leaves[0], f.params[0]["decl"]) and const_str(leaves[1]) == ".gz":
